@@ -21,6 +21,7 @@ import Driver.C20
 import Driver.C08
 import Driver.Dialer
 import Driver.C10
+import Driver.C10Q
 import Driver.C04
 import Driver.C17
 import Driver.OSGlue
@@ -44,7 +45,7 @@ def handlers : List (String × (List String → List String → Option Verdict))
   ("bt", Driver.C20.bt), ("sv", Driver.C20.sv),
   ("shut", Driver.C08.shut),
   ("d10", Driver.Dialer.d10), ("d11", Driver.Dialer.d11), ("rd", Driver.Dialer.rd),
-  ("grp", Driver.C10.grp),
+  ("grp", Driver.C10.grp), ("grpq", Driver.C10Q.grpq),
   ("pth", Driver.C04.pth),
   ("scr", Driver.C17.scr), ("api", Driver.C17.api), ("rt", Driver.C17.rt),
   ("pr", Driver.OSGlue.pr), ("osc", Driver.OSGlue.osc),
